@@ -24,10 +24,11 @@ def run(c):
         c.drive(drv, ["replay", c.replay, t])
         traces.append(t)
     else:
-        sched, n, _ = c.tlc_gen("MCGenDnsDial", c.pick("GenDnsDial_q.cfg", "GenDnsDial_t.cfg"), exhaustive=True, timeout=1500)
-        t = c.rundir / "graphs.ndjson"
-        c.drive(drv, ["replay", sched, t])
-        traces.append(t)
+        for g in c.pick(["GenDnsDial_q.cfg"], ["GenDnsDial_t.cfg", "GenDnsDial_t2.cfg"]):
+            sched, n, _ = c.tlc_gen("MCGenDnsDial", g, exhaustive=True, timeout=1500, out=c.rundir / ("sched_%s.ndjson" % g[:-4]))
+            t = c.rundir / ("graphs_%s.ndjson" % g[:-4])
+            c.drive(drv, ["replay", sched, t])
+            traces.append(t)
         t = c.rundir / "stress.ndjson"
         c.drive(drv, ["stress", t])
         traces.append(t)
@@ -65,7 +66,7 @@ def run(c):
         raise __import__("vlib").ToolError("stress schedules no longer reach the limits (vacuous bounds check)")
     return c.finish(
         "model_checking",
-        rule="schedule = (dialed address, record graph = answers per (name, query type), inner transport outcomes); all graphs over 2 /dnsaddr names x 1 host x 1 (thorough 2) addresses with foreign-suffix variants x policies are enumerated by TLC, plus 89 hand-written stress/corner graphs and seeded random graphs over 1..5 names; distinct = distinct schedules with at least two lookups",
+        rule="schedule = (dialed address, record graph = answers per (name, query type), inner transport outcomes); all graphs over 2 /dnsaddr names x 1 host x 1 address with foreign-suffix variants (thorough: also 2 addresses without foreign variants, and 4 inner-transport policies) are enumerated by TLC, plus 89 hand-written stress/corner graphs and seeded random graphs over 1..5 names; distinct = distinct schedules with at least two lookups",
         assumptions=["resolver and inner-transport futures complete immediately (no timing)",
                      "refused inner dials (MultiaddrNotSupported) are not attempts"],
     )
